@@ -32,9 +32,10 @@ VARIABLES
   flt,    \* a device fault happened inside the call in flight
   fltd,   \* a device fault or crash happened in this history (C05/C16 quantify over fault-free ones)
   dead,   \* model and implementation desynchronised: skip until next Reset
+  wfseen, \* structural defects already reported in this history (a leak persists: report it once)
   viol    \* set of <<line, property, tag>>
 
-tvars == <<l, hid, disk, disk0, pre, call, dur, minfo, flt, fltd, dead, viol, dirs, ovols, odirs, ofiles, lim>>
+tvars == <<l, hid, disk, disk0, pre, call, dur, minfo, flt, fltd, dead, wfseen, viol, dirs, ovols, odirs, ofiles, lim>>
 
 NoCall == [op |-> "none"]
 IsEv(k) == l <= Len(Rec) /\ Rec[l].ev = k
@@ -63,6 +64,14 @@ DiskViewL(lst) == [i \in 1..Len(lst) |->
    [lst[i] EXCEPT !.data = IF lst[i].len > 0 THEN SubSeq(lst[i].data, 1, Min2(lst[i].len, Len(lst[i].data))) ELSE <<>>]]
 DiskView(dv) == [id \in DOMAIN dv |-> DiskViewL(dv[id])]
 
+\* diagnostics: where two trees differ
+TreeDiff(a, m) ==
+  IF DOMAIN a # DOMAIN m THEN <<"dir-ids", DOMAIN a, DOMAIN m>>
+  ELSE LET bad == {id \in DOMAIN a : a[id] # m[id]}
+           id == CHOOSE x \in bad : TRUE
+       IN IF Len(a[id]) # Len(m[id]) THEN <<"listing-length", id, [i \in 1..Len(a[id]) |-> a[id][i].n], [i \in 1..Len(m[id]) |-> m[id][i].n]>>
+          ELSE LET i == CHOOSE j \in 1..Len(a[id]) : a[id][j] # m[id][j] IN <<"entry", id, i, "medium", a[id][i], "model", m[id][i]>>
+
 Report(tags) ==  \* tags: set of <<property, tag, detail>>
   IF tags = {} THEN viol
   ELSE IF PrintT(<<"VIOL", hid, l, tags>>) THEN viol \cup {<<l, t[1], t[2]>> : t \in tags} ELSE viol
@@ -82,7 +91,7 @@ TReset ==
                    IF bad = {} THEN viol
                    ELSE IF PrintT(<<"BADIMAGE", e.hid, l, {WellFormedWhy(ds[v], {}) : v \in bad}>>) THEN viol ELSE viol
   /\ ovols' = <<>> /\ odirs' = <<>> /\ ofiles' = <<>>
-  /\ call' = NoCall /\ flt' = FALSE /\ fltd' = FALSE /\ dead' = FALSE
+  /\ call' = NoCall /\ flt' = FALSE /\ fltd' = FALSE /\ dead' = FALSE /\ wfseen' = {}
   /\ l' = l + 1
 
 \* ------------------------------------------------------------------ Call
@@ -103,8 +112,16 @@ TCall ==
        call' = [op |-> e.op, a |-> e.a, clk |-> e.clk, api |-> e.api,
                 vol |-> IF "panicked" \in DOMAIN e.a THEN 0 ELSE CallVol(e.op, e.a)]
   /\ pre' = disk /\ flt' = FALSE
+  \* the durability promise for a file ends when a call that modifies that file *begins*
+  /\ dur' = LET e == Rec[l]  a == e.a IN
+            IF "panicked" \in DOMAIN a THEN dur
+            ELSE IF e.op = "write" /\ HasH(ofiles, a.f)
+                 THEN LET f == RecOf(ofiles, a.f) IN [dur EXCEPT ![f.vol] = {x \in @ : ~(x.dir = f.dir /\ x.n = f.n)}]
+            ELSE IF e.op \in {"delete", "open_file"} /\ HasH(odirs, a.d) /\ a.nmok /\ (e.op = "delete" \/ a.mode \in {"Truncate", "CreateOrTruncate"})
+                 THEN LET r == RecOf(odirs, a.d) IN [dur EXCEPT ![r.vol] = {x \in @ : ~(x.dir = r.id /\ x.n = a.nm)}]
+            ELSE dur
   /\ l' = l + 1
-  /\ UNCHANGED <<hid, disk, disk0, dur, minfo, fltd, dead, viol, apiVars>>
+  /\ UNCHANGED <<hid, disk, disk0, minfo, fltd, dead, wfseen, viol, apiVars>>
 
 \* ------------------------------------------------------------------ C04: WriteLegal
 \* position and slot of the live entry `n` of directory `id` on medium d ([b,i,sl]); b = -1 if absent
@@ -200,7 +217,7 @@ TW ==
           /\ UNCHANGED disk
      ELSE LET d == disk[v]
               d2 == ApplyW(d, e)
-              wl == WriteLegalWhy(call, pre[v], d, e, v)
+              wl == IF "panicked" \in DOMAIN call.a THEN "ok" ELSE WriteLegalWhy(call, pre[v], d, e, v)
               cs == CrashSafeWhy(d2, pre[v])
               du == {r \in dur[v] : ~DurableOK(d2, r)}
           IN /\ disk' = [disk EXCEPT ![v] = d2]
@@ -208,13 +225,13 @@ TW ==
                              \cup (IF cs = "ok" THEN {} ELSE {<<"C10", "CrashSafe", cs \o ":" \o call.op>>})
                              \cup (IF du = {} THEN {} ELSE {<<"C09", "Durable", call.op>>}))
   /\ l' = l + 1
-  /\ UNCHANGED <<hid, disk0, pre, call, dur, minfo, flt, fltd, dead, apiVars>>
+  /\ UNCHANGED <<hid, disk0, pre, call, dur, minfo, flt, fltd, dead, wfseen, apiVars>>
 
 TFail ==
   /\ IsEv("Fail") /\ ~dead
   /\ flt' = TRUE /\ fltd' = TRUE
   /\ l' = l + 1
-  /\ UNCHANGED <<hid, disk, disk0, pre, call, dur, minfo, dead, viol, apiVars>>
+  /\ UNCHANGED <<hid, disk, disk0, pre, call, dur, minfo, dead, wfseen, viol, apiVars>>
 
 \* ------------------------------------------------------------------ library remount vs the specification's reading
 KindOfAttr(a) == IF (a \div 8) % 2 = 1 THEN "label" ELSE IF (a \div 16) % 2 = 1 THEN "dir" ELSE "file"
@@ -238,7 +255,7 @@ TRemount ==
         ELSE IF LibTree(lv) # AbsTree(disk[v]) THEN {<<"C02", "Remount", "library view differs from the independent reader">>}
         ELSE {} : v \in DOMAIN disk})
   /\ l' = l + 1
-  /\ UNCHANGED <<hid, disk, disk0, pre, call, dur, minfo, flt, fltd, dead, apiVars>>
+  /\ UNCHANGED <<hid, disk, disk0, pre, call, dur, minfo, flt, fltd, dead, wfseen, apiVars>>
 
 LibHasDurable(lv, r) ==
   LET t == LibTree(lv) IN
@@ -258,11 +275,12 @@ TCrashMount ==
         : v \in DOMAIN disk})
   /\ fltd' = fltd
   /\ l' = l + 1
-  /\ UNCHANGED <<hid, disk, disk0, pre, call, dur, minfo, flt, dead, apiVars>>
+  /\ UNCHANGED <<hid, disk, disk0, pre, call, dur, minfo, flt, dead, wfseen, apiVars>>
 
 \* ------------------------------------------------------------------ Return
 PanicProp(op) ==
   IF flt THEN "C11"
+  ELSE IF call.vol # 0 /\ disk[call.vol].g.fat32 /\ minfo[call.vol].f >= 0 /\ minfo[call.vol].f # minfo[call.vol].free THEN "C16"
   ELSE IF op \in {"read", "write", "seek_start", "seek_end", "seek_cur", "length", "offset", "eof"} THEN "C01"
   ELSE IF op \in {"flush", "close_file"} THEN "C02"
   ELSE IF op \in {"open_volume"} THEN "C15"
@@ -315,8 +333,10 @@ StateChecks(op, obs, fateq) ==
   UNION {
     LET d == disk[v]
         wf == WellFormedWhy(d, PendHeads(v))
-    IN (IF AbsTree(d) = DiskView(dirs'[v]) THEN {} ELSE {<<"C02", "Refines", "medium does not hold what the history says:" \o op>>})
-     \cup (IF wf = "ok" THEN {} ELSE {<<IF wf = "orphans" THEN "C05" ELSE "C03", "WellFormed", wf \o ":" \o op>>})
+    IN (IF AbsTree(d) = DiskView(dirs'[v]) THEN {}
+        ELSE IF PrintT(<<"DIFF", hid, l, TreeDiff(AbsTree(d), DiskView(dirs'[v]))>>)
+             THEN {<<"C02", "Refines", "medium does not hold what the history says:" \o op>>} ELSE {})
+     \cup (IF wf = "ok" \/ <<v, wf, Orphans(d)>> \in wfseen THEN {} ELSE {<<IF wf = "orphans" THEN "C05" ELSE "C03", "WellFormed", wf \o ":" \o op>>})
      \cup (IF fltd \/ (FatCopiesEqual(d) /\ fateq) THEN {} ELSE {<<"C16", "FatCopiesEqual", op>>})
      \cup (IF \A i \in 1..Len(ofiles') : ofiles'[i].vol = v => PendingOK(d, ofiles'[i]) THEN {}
            ELSE {<<"C01", "PendingData", "data of an open file is not on its chain:" \o op>>})
@@ -473,7 +493,7 @@ TRet ==
         /\ LET refs == WriteRefs(a.f)
                n == Len(a.vals)
            IN
-           IF refs # {}
+           IF refs # {} \/ (call.api = "eio" /\ n = 0)   \* embedded-io: an empty buffer is a no-op returning 0
            THEN IF Admissible(refs, r)
                 THEN /\ UNCHANGED apiVars /\ dead' = FALSE /\ dur' = dur
                      /\ viol' = Report(StateChecks(op, e.obs, e.fateq) \cup (IF disk # pre THEN {<<"C07", "Refused", "refused write wrote">>} ELSE {}))
@@ -582,6 +602,7 @@ TRet ==
         /\ UNCHANGED apiVars /\ dead' = FALSE /\ dur' = dur /\ minfo' = minfo
         /\ viol' = Report(IF r.v.b = HasOpenTruth THEN {} ELSE {<<"C08", "HasOpen", "open-handle query does not tell the truth">>})
   /\ call' = NoCall /\ flt' = FALSE
+  /\ wfseen' = wfseen \cup {<<x, WellFormedWhy(disk[x], PendHeads(x)), Orphans(disk[x])>> : x \in DOMAIN disk}
   /\ l' = l + 1
   /\ UNCHANGED <<hid, disk, disk0, pre, fltd>>
 
@@ -591,7 +612,7 @@ TRetPanic ==
   /\ viol' = Report({<<PanicProp(call.op), "Panic", call.op \o ":" \o Rec[l].r.e>>})
   /\ dead' = TRUE /\ call' = NoCall /\ flt' = FALSE
   /\ l' = l + 1
-  /\ UNCHANGED <<hid, disk, disk0, pre, dur, minfo, fltd, apiVars>>
+  /\ UNCHANGED <<hid, disk, disk0, pre, dur, minfo, fltd, wfseen, apiVars>>
 
 \* a faulted call (C11): it must report an error; afterwards the involved objects are re-read
 \* from the medium (their state after a failed call is not prescribed), everything else must be
@@ -602,13 +623,13 @@ TRetFault ==
   /\ dead' = TRUE   \* continuation after a fault: see FatFault.tla
   /\ call' = NoCall /\ flt' = FALSE
   /\ l' = l + 1
-  /\ UNCHANGED <<hid, disk, disk0, pre, dur, minfo, fltd, apiVars>>
+  /\ UNCHANGED <<hid, disk, disk0, pre, dur, minfo, fltd, wfseen, apiVars>>
 
 \* skipping the rest of a dead history
 TSkip ==
   /\ dead /\ l <= Len(Rec) /\ Rec[l].ev # "Reset"
   /\ l' = l + 1
-  /\ UNCHANGED <<hid, disk, disk0, pre, call, dur, minfo, flt, fltd, dead, viol, apiVars>>
+  /\ UNCHANGED <<hid, disk, disk0, pre, call, dur, minfo, flt, fltd, dead, wfseen, viol, apiVars>>
 
 TDone ==
   /\ l = Len(Rec) + 1
@@ -617,7 +638,7 @@ TDone ==
 
 TInit ==
   /\ l = 1 /\ hid = "" /\ disk = <<>> /\ disk0 = <<>> /\ pre = <<>> /\ call = NoCall
-  /\ dur = <<>> /\ minfo = <<>> /\ flt = FALSE /\ fltd = FALSE /\ dead = FALSE /\ viol = {}
+  /\ dur = <<>> /\ minfo = <<>> /\ flt = FALSE /\ fltd = FALSE /\ dead = FALSE /\ wfseen = {} /\ viol = {}
   /\ dirs = <<>> /\ ovols = <<>> /\ odirs = <<>> /\ ofiles = <<>> /\ lim = [d |-> 0, f |-> 0, v |-> 0]
 
 TNext == TReset \/ TCall \/ TW \/ TFail \/ TRemount \/ TCrashMount \/ TRet \/ TRetPanic \/ TRetFault \/ TSkip \/ TDone
